@@ -5,7 +5,7 @@ import importlib
 
 STD_ASSUMPTIONS = [
     "A1 Python int is mathematical (faithful)",
-    "A2 Python float is modelled as a mathematical real (no rounding, no NaN; float('inf') only compared, objective values finite)",
+    "A2 Python float is modelled as a mathematical real (no rounding); float('inf') is only compared: every + - * on reals carries the proved obligation `inf-arith` (no operand is +-inf, hence no inf - inf / NaN) under the stated finiteness preconditions on weights and callback results",
     "A3 exceptions: every subscript / key / division / possibly-unbound local generates an obligation; MemoryError and RecursionError ignored",
     "A4 user callbacks: the objective is a pure deterministic function (uninterpreted); other callbacks and the seeded Random instance return arbitrary values of their documented range; callbacks do not reach the solver's locals",
     "A6 set/dict iteration order arbitrary",
